@@ -26,6 +26,7 @@ import numpy as np
 from harness.common import rat, MachineryError
 
 FORMATS = ['asdf', 'fits', 'fits.gz', 'pkl']
+FAM_OF = {'asdf': 'asdf', 'fits': 'fits', 'fits.gz': 'fits', 'pkl': 'pickle'}
 FIELD_DTYPES = ['float64', 'float32', 'int64', 'int32', 'int16', 'uint8', 'int8', 'uint16', 'uint32',
                 'uint64', 'complex128', 'complex64', 'bool', 'float16']
 BASIS_DTYPES = ['float64', 'float32', 'int64', 'int32', 'complex128', 'bool', 'uint8']
@@ -52,11 +53,25 @@ def _values(dtype, ints):
     raise MachineryError('dtype ' + dtype)
 
 
+BORDERS = ['=', '<', '>']
+
+
+def with_border(a, border):
+    """The same values stored with an explicit byte order ('=' native, '<', '>'); single-byte dtypes have none."""
+    a = np.asarray(a)
+    if border in (None, '=') or a.dtype.itemsize == 1:
+        return a
+    out = a.astype(a.dtype.newbyteorder(border))
+    if not np.array_equal(out, a):
+        raise MachineryError('with_border changed the values')
+    return out
+
+
 def build_grid(spec):
     import hcipy
-    cd = np.dtype(spec.get('cdtype', 'float64'))
+    cd = np.dtype(spec.get('cdtype', 'float64')).newbyteorder(spec.get('cborder') or '=')
     if spec['kind'] == 'regular':
-        if cd.kind == 'i':
+        if cd.kind == 'i' or spec.get('cborder') in ('<', '>'):
             coords = hcipy.RegularCoords(np.array(spec['delta'], dtype=cd), list(spec['dims']), np.array(spec['zero'], dtype=cd))
         else:
             coords = hcipy.RegularCoords(list(spec['delta']), list(spec['dims']), list(spec['zero']))
@@ -74,7 +89,7 @@ def build_grid(spec):
     elif w['t'] == 'npfloat':
         weights = np.float64(w['v'])
     elif w['t'] == 'array':
-        weights = np.array(w['v'], dtype=w['dtype'])
+        weights = with_border(np.array(w['v'], dtype=w['dtype']), w.get('border'))
     elif w['t'] == 'list':
         weights = [float(x) for x in w['v']]
     else:
@@ -154,7 +169,10 @@ def build_field(spec):
     g = build_grid(spec['grid'])
     shape = tuple(spec['tshape']) + (grid_size(spec['grid']),)
     n = int(np.prod(shape))
-    vals = apply_layout(_values(spec['dtype'], spec['vals'][:n]).reshape(shape), spec_layout(spec))
+    base = with_border(_values(spec['dtype'], spec['vals'][:n]).reshape(shape), spec.get('border'))
+    vals = apply_layout(base, spec_layout(spec))
+    if vals.dtype != base.dtype:
+        raise MachineryError('layout lost the byte order')
     with _NewStyle(spec.get('newstyle')):
         return hcipy.Field(vals, g)
 
@@ -168,9 +186,13 @@ def build_basis(spec):
     cnt = int(np.prod(shape))
     T = _values(spec['dtype'], spec['vals'][:cnt]).reshape(shape)
     if spec['kind'] == 'dense':
-        T = apply_layout(T, spec_layout(spec))
+        T = apply_layout(with_border(T, spec.get('border')), spec_layout(spec))
     if spec['kind'] == 'sparse':
-        T = scipy.sparse.csc_matrix(T)
+        try:
+            T = scipy.sparse.csc_matrix(with_border(T, spec.get('border')))
+        except ValueError:
+            # scipy.sparse refuses non-native byte order: such a sparse basis cannot exist; native instead
+            T = scipy.sparse.csc_matrix(T)
         if spec.get('explicit_zero') and T.nnz:
             T.data[0] = 0
     return hcipy.ModeBasis(T, g)
@@ -185,6 +207,15 @@ def build(spec):
 
 def _dy(rng, lo, hi):
     return int(rng.integers(lo * 8, hi * 8 + 1)) / 8.0
+
+
+def gen_border(rng):
+    return str(rng.choice(BORDERS, p=[0.5, 0.12, 0.38]))
+
+
+def gen_chains(rng, n=2):
+    """format chains A -> B -> C: the object read from A is written to B, read, written to C, read"""
+    return [[FORMATS[int(i)] for i in rng.integers(0, len(FORMATS), size=3)] for _ in range(n)]
 
 
 def gen_grid(rng, big=False):
@@ -239,6 +270,9 @@ def gen_grid(rng, big=False):
         # automatic weights, materialised before writing (unstructured grids have none: warning + 1)
         spec['weights'] = {'t': 'auto'}
     spec['reversed'] = bool(rng.random() < 0.12)
+    spec['cborder'] = gen_border(rng)
+    if spec['weights'] is not None and spec['weights']['t'] == 'array':
+        spec['weights']['border'] = gen_border(rng)
     return spec
 
 
@@ -252,7 +286,8 @@ def gen_field(rng, big=False):
     n = int(np.prod(ts + [grid_size(g)]))
     return {'what': 'field', 'grid': g, 'tshape': ts, 'dtype': dt,
             'vals': [int(x) for x in rng.integers(-12, 13, size=n)],
-            'layout': str(rng.choice(LAYOUTS, p=[0.3, 0.27, 0.15, 0.14, 0.14])), 'newstyle': bool(rng.random() < 0.3)}
+            'layout': str(rng.choice(LAYOUTS, p=[0.3, 0.27, 0.15, 0.14, 0.14])), 'newstyle': bool(rng.random() < 0.3),
+            'border': gen_border(rng)}
 
 
 def gen_basis(rng, big=False):
@@ -269,7 +304,8 @@ def gen_basis(rng, big=False):
         vals = vals * (rng.random(size=n) < 0.5)
     return {'what': 'basis', 'grid': g, 'npoints': npoints, 'kind': kind, 'tshape': ts, 'nmodes': nm, 'dtype': dt,
             'vals': [int(x) for x in vals], 'explicit_zero': bool(kind == 'sparse' and rng.random() < 0.3),
-            'layout': 'C' if kind == 'sparse' else str(rng.choice(LAYOUTS, p=[0.3, 0.27, 0.15, 0.14, 0.14]))}
+            'layout': 'C' if kind == 'sparse' else str(rng.choice(LAYOUTS, p=[0.3, 0.27, 0.15, 0.14, 0.14])),
+            'border': gen_border(rng)}
 
 
 def _g(kind, system='cartesian', **kw):
@@ -328,6 +364,14 @@ DIRECTED = [
     _b(_REG2, 'dense', nm=0), _b(_SEPR, 'dense'), _b(_SEPR, 'sparse'), _b(_UNS2, 'dense'), _b(_UNS2, 'sparse'),
     _b(_UNS2, 'dense', ts=[2]), _b(None, 'dense'), _b(None, 'sparse'), _b(_REG2, 'dense', dt='complex128'),
     _b(_REG2, 'sparse', dt='bool'),
+    # byte order as an input dimension (seeded class: a field that already holds big-endian values, e.g. read from FITS)
+    _f(_REG2, [], border='>'), _f(_REG2, [2], border='>'), _f(_SEPR, [2, 2], 'float32', border='>'), _f(_REG2, [], 'int16', border='>'),
+    _f(_REG2, [], 'int32', border='>'), _f(_REG2, [2], 'uint16', border='>'), _f(_UNS2, [2], border='>'), _f(_REG2, [2], 'complex128', border='>'),
+    _f(_REG2, [2], border='>', newstyle=True), _f(_REG2, [2], border='>', layout='F'), _f(_REG2, [], border='<'), _f(_REG2, [], 'int64', border='>'),
+    dict(_SEPR, cborder='>'), dict(_UNS2, cborder='>'), dict(_REG2, cborder='>'),
+    dict(_UNS2, weights={'t': 'array', 'dtype': 'float64', 'v': [1.0, 2.0, 3.0, 4.0], 'border': '>'}),
+    _f(dict(_SEPR, cborder='>'), [2], border='>'),
+    _b(_REG2, 'dense', border='>'), _b(_UNS2, 'dense', border='>'), _b(_REG2, 'dense', ts=[2], border='>', dt='float32'), _b(_REG2, 'sparse', border='>'),
     _b(_REG2, 'dense', layout='F'), _b(_UNS2, 'dense', layout='F'), _b(_REG2, 'dense', ts=[2], layout='F'),
     _b(_UNS2, 'dense', ts=[2], layout='P'), _b(_REG2, 'dense', layout='neg'), _b(_SEPR, 'dense', layout='strided'),
 ]
@@ -514,6 +558,44 @@ def round_trips(spec, tmpdir):
             if snapshot(what, x) != snap0:
                 fails.append(('write-alters:%s:%s:%s' % (what, fam, ck), 'writing through %s altered the %s being written' % (route, what)))
 
+        FAM = {'asdf': 'asdf', 'fits': 'fits', 'fits.gz': 'fits', 'pkl': 'pickle'}
+        read_back = {}
+
+        def hop(cur, fmt, route, k):
+            """write an object that was itself read from a file, read it again; None when refused/failed"""
+            fam = FAM[fmt]
+            fn = os.path.join(tmpdir, 'c%d.%s' % (k, fmt))
+            if os.path.exists(fn):
+                os.remove(fn)
+            before = snapshot(what, cur)
+            try:
+                write(cur, fn)
+            except Exception as e:  # noqa
+                obs.setdefault('chain_refused', []).append('%s:%s' % (fmt, type(e).__name__))
+                if snapshot(what, cur) != before:
+                    fails.append(('write-alters:%s:chain>%s:%s' % (what, fam, ck), 'a refused write (%s) altered the %s being written' % (route, what)))
+                return None
+            if snapshot(what, cur) != before:
+                fails.append(('write-alters:%s:chain>%s:%s' % (what, fam, ck),
+                              'writing (chain %s) altered the %s being written (values, dtype/byte order, strides, weights or attributes)' % (route, what)))
+            try:
+                with _NewStyle(spec.get('newstyle')):
+                    nxt = read(fn)
+            except Exception as e:  # noqa
+                fails.append(('%s:chain>%s:%s' % (what, fam, ck), 'chain %s: the write succeeded but reading back raised %s: %s' % (
+                    route, type(e).__name__, str(e)[:100])))
+                return None
+            d = first_difference(what, ref, sig(nxt))
+            if d is not None:
+                fails.append(('%s:chain>%s:%s' % (what, fam, ck), '%s after the chain %s differs from the original in %s' % (what, route, d)))
+                return None
+            gx, gy = grid_of(what, x), grid_of(what, nxt)
+            if gx is not None and not (gy == gx):
+                fails.append(('hcipy-eq:chain', 'the grid after the chain %s has identical coordinates but hcipy\'s == says it differs' % route))
+                return None
+            obs['chain_hops'] = obs.get('chain_hops', 0) + 1
+            return nxt
+
         # dictionary
         tree = None
         try:
@@ -583,8 +665,19 @@ def round_trips(spec, tmpdir):
                 raise
             except Exception:  # noqa
                 o['out'] = None
-            compare(y, 'write/read %s' % fmt, fam)
+            if compare(y, 'write/read %s' % fmt, fam):
+                read_back[fmt] = y
             unchanged('read_%s(%s)' % (what, fmt), fam)
+        # chains: what was read from A is written to B, read, written to C, read
+        for k, chain in enumerate(spec.get('chains') or []):
+            cur = read_back.get(chain[0])
+            route = chain[0]
+            for fmt in chain[1:]:
+                if cur is None:
+                    break
+                route += '>' + fmt
+                cur = hop(cur, fmt, route, k)
+            unchanged('chain ' + route, 'chain')
     return obs, fails
 
 
@@ -672,13 +765,13 @@ def describe(spec):
         gd = ('no-grid',)
     else:
         dims = g['dims'] if g['kind'] == 'regular' else [len(a) for a in g['axes']]
-        gd = (g['kind'], g['system'], len(dims), g['cdtype'], (g['weights'] or {'t': 'none'})['t'], bool(g['reversed']),
+        gd = (g['kind'], g['system'], len(dims), g['cdtype'], g.get('cborder'), (g['weights'] or {'t': 'none'})['t'], bool(g['reversed']),
               'ragged' if len(set(dims)) > 1 else 'square')
     if what == 'grid':
         return (what,) + gd
     if what == 'field':
-        return (what, spec['dtype'], tuple(spec['tshape']), spec_layout(spec), spec['newstyle']) + gd
-    return (what, spec['kind'], spec['dtype'], tuple(spec['tshape']), spec['nmodes'], spec['explicit_zero'], spec_layout(spec)) + gd
+        return (what, spec['dtype'], tuple(spec['tshape']), spec_layout(spec), spec['newstyle'], spec.get('border')) + gd
+    return (what, spec['kind'], spec['dtype'], tuple(spec['tshape']), spec['nmodes'], spec['explicit_zero'], spec_layout(spec), spec.get('border')) + gd
 
 
 def check_spec(ctx, spec, tmpdir, batch):
@@ -717,6 +810,20 @@ def check_spec(ctx, spec, tmpdir, batch):
         if o['w'] != 'ok' and fmt in ('asdf', 'pkl') and obs.get('to_dict') == 'ok':
             ctx.disagree('C16 write', {'spec': spec, 'fmt': fmt, 'impl': o['w'] + ': ' + o.get('w_msg', ''),
                                        'model': 'every object with a dictionary form can be written to asdf and pickle'})
+    ctx.count('chain-hops-written+read', obs.get('chain_hops', 0))
+    for r in obs.get('chain_refused', []):
+        ctx.count('chain-write-refused:' + r)
+    for ch in spec.get('chains') or []:
+        ctx.count('chain-pair:%s>%s' % (FAM_OF[ch[0]], FAM_OF[ch[1]]))
+    bo = []
+    if g is not None:
+        bo.append(('coords', g.get('cborder')))
+        if g.get('weights') and g['weights']['t'] == 'array':
+            bo.append(('weights', g['weights'].get('border')))
+    if what in ('field', 'basis'):
+        bo.append((what + '-' + (spec.get('kind') or 'values'), spec.get('border')))
+    for name, b in bo:
+        ctx.count('byteorder:%s:%s' % (name, b or '='))
     if obs.get('to_dict') != 'ok':
         ctx.count('to_dict-refused:' + str(obs.get('to_dict')))
         if not (what == 'basis' and g is None and obs.get('to_dict') == 'attr'):
@@ -757,7 +864,7 @@ def run(ctx):
                         'dtype equality is taken up to byte order: FITS images come back big endian']
     rng = ctx.rng
     big = ctx.tier == 'thorough'
-    ng, nf, nb = ctx.scale((40, 90, 80), (500, 1000, 900))
+    ng, nf, nb = ctx.scale((25, 60, 55), (350, 700, 600))
     specs = [copy.deepcopy(s) for s in DIRECTED]
     for _ in range(ng):
         specs.append(gen_grid(rng, big))
@@ -765,6 +872,16 @@ def run(ctx):
         specs.append(gen_field(rng, big))
     for _ in range(nb):
         specs.append(gen_basis(rng, big))
+    # format chains: every ordered pair (A, B) systematically over the directed corpus, random for the rest
+    pairs = [(a, b) for a in FORMATS for b in FORMATS]
+    for i, spec in enumerate(specs):
+        if 'chains' in spec:
+            continue
+        if i < len(DIRECTED):
+            (a, b), (a2, b2) = pairs[(2 * i) % 16], pairs[(2 * i + 1) % 16]
+            spec['chains'] = [[a, b, FORMATS[(i // 8) % 4]], [a2, b2, FORMATS[(i // 8 + 2) % 4]]]
+        else:
+            spec['chains'] = gen_chains(rng, 2)
     batch = []
     with tempfile.TemporaryDirectory(prefix='c16_') as tmpdir:
         for spec in specs:
